@@ -346,7 +346,7 @@ RULES = {
     'roundtrip': 'accepted configurations: middlewares from c, from Config(), zero+Reconfigure(&c), Reconfigure(Config()); five derived requests in both debug modes compared pairwise; Config() stable after one round trip; distinct by case hash',
     'intents': 'accepted configurations x browser intents derived from them (allowed / near-miss origin, configured / pooled method in page spelling, 0-4 header names incl. Authorization in several cases, credentials include/omit, private-network target yes/no) x debug x tolerated ACRH perturbations; the harness sends the browser-built preflight and the actual request through the real middleware, the Lean browser model (Spec/Browser.lean) reads both responses and its verdict is compared with Browser.permits',
     'schedule': 'configuration pairs (incl. to/from passthrough) x debug x requests derived from them x three schedule points (first Header() call, WriteHeader, entry of the wrapped handler) x three operations (Reconfigure to the other configuration, SetDebug flip, Config()) executed exactly at that point from inside the request; the response must be that of the state at request entry (compared with a fresh middleware in that state, Go against Go) and the next request that of the new state',
-    'stress': '12 reader goroutines against 2 reconfiguring goroutines (alternating two configurations, checking Config() against the two normal forms) and one SetDebug toggler; every response must equal the response of one of the four (configuration, debug) states; thorough tier runs a -race build',
+    'stress': '12 reader goroutines against 2 reconfiguring goroutines (alternating two configurations, checking Config() against the two normal forms) and one SetDebug toggler; every response must equal the response of one of the four (configuration, debug) states; two scenarios with a reduced set of legal outcomes run first (SetDebug(true) spinning against Reconfigure(nil) then Reconfigure(Y): a failing preflight must be the bare 403 of Y; a writer cycling SetDebug(true), Reconfigure(X), Reconfigure(nil), Reconfigure(Y): a response of (X, debug off), which is never current, is a violation); thorough tier runs a -race build',
     'allocs': 'testing.AllocsPerRun(20, ServeHTTP) with a reusable writer for 56 families (allow-all / discrete / `*`+Authorization / credentialed `*` configurations x debug on/off x actual GET with long Origin, preflights with long Origin / long ACRM / long ACRH name / many ACRH elements / many ACRH lines / padded allowed list) at every size of the family; every family is a distinct non-trivial case',
     'lexx': 'small-scope exhaustive: every sequence of up to 3 (thorough: 4) tokens from {a b1 1 0 255 256 01 . : * [ ] ::1 - _ / 80 8080 65536 xn-- A space} after each of https:// http:// https://*. http://[ through ParsePattern and Parse; distinct by case hash',
     'acrhx': 'small-scope exhaustive: every subset of the allowed names {a b ab} (thorough: {a b ab abc}) x every sequence of up to 4 (thorough: 5) tokens from {a b ab abc c , space tab A} as one ACRH field line, and every split of the shorter sequences over two field lines, through headers.Check; distinct by case hash',
